@@ -88,6 +88,12 @@ var undoPairs = map[string][]string{
 	"accessListAddSlotChange":    {"call:(*storage/account.accessList).DeleteSlot"},
 }
 
+// undoConditionalOnEntry: entry types whose undo may skip the restore depending
+// on what the entry itself recorded (reviewed).
+var undoConditionalOnEntry = map[string]string{
+	"touchChange": "nothing to restore when the object had been touched before (prev) — and the ripemd precompile keeps its touch by consensus rule (EIP-161 quirk)",
+}
+
 func c04(c *eng.Ctx, r *eng.Report) {
 	r.Explain = "Journal completeness of the account state as ownership + ordering + pairing rules on the SSA of storage/account: " +
 		"R4.1 every write (store, map update, delete, sync.Map Store/Delete) to a journaled field comes from a function in the reviewed writer table; " +
@@ -96,6 +102,7 @@ func c04(c *eng.Ctx, r *eng.Report) {
 		"R4.4 a map-typed journaled field whose size/emptiness is observable needs an undo that can delete from it; " +
 		"R4.5/R4.6 RevertToSnapshot undoes entries from the last down to the snapshot index inclusive and truncates both journal and revision list; Snapshot records len(journal). " +
 		"R4.7 every state read that feeds a member of a journal entry happens before any write (direct or through a package callee) to the same field in that mutator — the entry captures the pre-state. " +
+		"R4.8 an account object is always either in the dirty set or has its one-shot onDirty hook armed: whoever takes an address out of accountObjectsDirty re-arms the hook of that object or drops the object from the cache (undo of a touch, undo of a creation, Commit), whoever replaces the dirty set replaces the object cache with it, and the hook is cleared only right after it was called — otherwise writes made after a revert are never marked dirty and the root computed afterwards lacks them. " +
 		"Not decided: value equality of every query after revert; equality of state roots."
 	r.Assume = []string{"state reachable through the account package's API lives in the fields listed in rules/c04.go (journaledFields)", "sync.Map/maps are only written through the recognised instructions"}
 	c04Writers(c, r)
@@ -104,6 +111,7 @@ func c04(c *eng.Ctx, r *eng.Report) {
 	c04Shrink(c, r)
 	c04Revert(c, r)
 	c04PreState(c, r)
+	c04DirtyOrArmedAs(c, r, "R4.8")
 }
 
 func shortStruct(t string) string { return strings.TrimPrefix(t, "storage/account.") }
@@ -451,9 +459,14 @@ func c04Journaled(c *eng.Ctx, r *eng.Report) {
 	}
 }
 
-func c04Undo(c *eng.Ctx, r *eng.Report) {
-	const rule = "R4.3"
-	r.Min(rule, 12)
+func c04Undo(c *eng.Ctx, r *eng.Report) { c04UndoAs(c, r, "R4.3", nil, 12) }
+
+// c04UndoAs decides the entry/undo pairing for all journal entry types (only ==
+// nil) or for the named ones, reporting under the given rule id: the
+// conservation property (C06) relies on the same pairing for the entries that
+// carry balances.
+func c04UndoAs(c *eng.Ctx, r *eng.Report, rule string, only map[string]bool, min int) {
+	r.Min(rule, min)
 	// all types implementing transitionEntry
 	p := c.TPkg(acctPkg)
 	if p == nil {
@@ -480,6 +493,9 @@ func c04Undo(c *eng.Ctx, r *eng.Report) {
 			continue
 		}
 		if !types.Implements(tn.Type(), iface) && !types.Implements(types.NewPointer(tn.Type()), iface) {
+			continue
+		}
+		if only != nil && !only[n] {
 			continue
 		}
 		key := "entry:" + n
@@ -513,6 +529,129 @@ func c04Undo(c *eng.Ctx, r *eng.Report) {
 		wl := append([]string(nil), want...)
 		sort.Strings(wl)
 		r.Check(strings.Join(gl, " ") == strings.Join(wl, " "), rule, key, c.Pos(undo.Pos()), "undo performs exactly "+strings.Join(wl, ", "), "undo of "+n+" performs ["+strings.Join(gl, ", ")+"], reference is ["+strings.Join(wl, ", ")+"]: entry and undo no longer address the same state")
+		// …and performs each of them on every path to its return (an early exit that skips one leaves that part of
+		// the change standing after the revert)
+		writes := map[string][]ssa.Instruction{}
+		note := func(v ssa.Value, in ssa.Instruction) {
+			if u, ok := v.(*ssa.UnOp); ok && u.Op == token.MUL {
+				v = u.X
+			}
+			if ia, ok := v.(*ssa.IndexAddr); ok {
+				v = ia.X
+				if u, ok := v.(*ssa.UnOp); ok && u.Op == token.MUL {
+					v = u.X
+				}
+			}
+			if t, f := eng.FieldOf(v); t != "" {
+				k := "field:" + shortStruct(t) + "." + f
+				writes[k] = append(writes[k], in)
+			}
+		}
+		for _, b := range undo.Blocks {
+			for _, in := range b.Instrs {
+				switch x := in.(type) {
+				case *ssa.Store:
+					note(x.Addr, in)
+				case *ssa.MapUpdate:
+					note(x.Map, in)
+				case *ssa.Call:
+					nm := eng.CallName(&x.Call)
+					if nm == "builtin:delete" && len(x.Call.Args) > 0 {
+						note(x.Call.Args[0], in)
+					}
+					if _, isSetter := journalPairs[nm]; isSetter || strings.HasPrefix(nm, "(*storage/account.accessList).Delete") {
+						writes["call:"+nm] = append(writes["call:"+nm], in)
+					}
+				}
+			}
+		}
+		skipped := ""
+		// the receiver (the journal entry) and what may legitimately decide whether a restore is needed
+		var recv ssa.Value
+		if len(undo.Params) > 0 {
+			recv = undo.Params[0]
+		}
+		fromEntry := func(v ssa.Value) bool {
+			// a condition over the entry's recorded fields, constants/package constants, or the presence of the object
+			ok := true
+			usesEntry := false
+			seen := map[ssa.Value]bool{}
+			var walk func(x ssa.Value, d int)
+			walk = func(x ssa.Value, d int) {
+				if x == nil || d > 6 || seen[x] || !ok {
+					return
+				}
+				seen[x] = true
+				switch y := x.(type) {
+				case *ssa.Const, *ssa.Global:
+					return
+				case *ssa.Parameter:
+					if y != recv {
+						ok = false
+					}
+					usesEntry = true
+					return
+				case *ssa.Alloc:
+					usesEntry = true
+					return // the spilled receiver copy
+				case *ssa.Call:
+					// obj := s.getAccountObject(...); if obj != nil
+					if strings.HasSuffix(eng.CallName(&y.Call), ").getAccountObject") {
+						return
+					}
+					if nm := eng.CallName(&y.Call); nm == "builtin:len" {
+						break // len(ch.field): a look at the entry
+					}
+					ok = false
+					return
+				case *ssa.Lookup, *ssa.Extract:
+					ok = false // a look at current state
+					return
+				}
+				if in, isI := x.(ssa.Instruction); isI {
+					var ops []*ssa.Value
+					for _, o := range in.Operands(ops) {
+						if *o != nil {
+							walk(*o, d+1)
+						}
+					}
+				}
+			}
+			walk(v, 0)
+			// what the entry recorded may decide whether a restore is needed only where that was reviewed
+			// (touchChange restores nothing when the object was already touched); for every other entry the
+			// restore is unconditional but for the presence of the object
+			if usesEntry && undoConditionalOnEntry[n] == "" {
+				return false
+			}
+			return ok
+		}
+		for _, w := range want {
+			ins := writes[w]
+			if len(ins) == 0 || skipped != "" {
+				continue // reported above
+			}
+			for _, re := range eng.Returns(undo) {
+				if eng.MustPassBefore(undo, re.Ret, ins) {
+					continue
+				}
+				// this exit can be reached without the restore: fine only when the entry itself (or the absence of
+				// the object) says nothing needs restoring — both for reaching the exit and for skipping the write
+				for _, cd := range eng.EdgeConds(re.Ret.Block()) {
+					if !fromEntry(cd.V) {
+						skipped = w + " (an exit is taken under " + eng.Desc(cd.V) + ", a condition that is not the reviewed one for this entry, before it)"
+					}
+				}
+				for _, in := range ins {
+					for _, cd := range eng.CondsAt(in) {
+						if !fromEntry(cd.V) {
+							skipped = w + " (it is performed only under " + eng.Desc(cd.V) + ", a condition other than the presence of the object and the reviewed conditions of this entry type)"
+						}
+					}
+				}
+			}
+		}
+		r.Check(skipped == "", rule, key+":every-path", c.Pos(undo.Pos()), "each restoring write happens on every path through undo", "undo of "+n+" can return without performing "+skipped+" (an early exit skips it): after RevertToSnapshot that part of the reverted change is still visible (e.g. a counter stays advanced)")
 	}
 }
 
@@ -658,6 +797,34 @@ func c04Revert(c *eng.Ctx, r *eng.Report) {
 		}
 		r.Check(ok, "R4.6", "Snapshot:journalIndex", c.Pos(snap.Pos()), "Snapshot records len(adb.transitions)", "Snapshot no longer records len(adb.transitions) as the revision's journal index")
 	}
+	// snapshot ids stay unique among the live revisions: the id counter only counts up (in Snapshot), or is reset in a
+	// function that empties the revision list as well — RevertToSnapshot finds its entry by binary search over ids
+	n := 0
+	for _, fn := range c.PkgFuncs(acctPkg) {
+		if c.IsTestFunc(fn) {
+			continue
+		}
+		for _, st := range eng.FieldStores(fn, "storage/account.AccountDB", "nextRevisionID") {
+			n++
+			v := st.(*ssa.Store).Val
+			ok := false
+			if bo, isB := v.(*ssa.BinOp); isB && bo.Op == token.ADD && fn == snap {
+				if k, isK := eng.ConstInt(bo.Y); isK && k == 1 {
+					ok = true
+				}
+			}
+			if !ok {
+				for _, st2 := range eng.FieldStores(fn, "storage/account.AccountDB", "validRevisions") {
+					d := eng.Desc(st2.(*ssa.Store).Val)
+					if strings.HasSuffix(d, ":0]") || d == "nil" || strings.Contains(d, "makeslice") {
+						ok = true
+					}
+				}
+			}
+			r.Check(ok, "R4.6", "revision-id-writer:"+eng.FuncName(fn), c.Pos(st.Pos()), "the id counter counts up in Snapshot (or is reset together with the revision list)", eng.FuncName(fn)+" sets AccountDB.nextRevisionID to "+eng.Desc(v)+" without emptying validRevisions: ids handed out afterwards collide with revisions still on the list, and RevertToSnapshot's search by id rolls back to an earlier transaction's entry (state that had already succeeded is undone) or panics")
+		}
+	}
+	r.Check(n >= 1, "R4.6", "revision-id-writer:any", "", fmt.Sprintf("%d writers of nextRevisionID", n), "no writer of nextRevisionID found (Snapshot expected)")
 }
 
 // c04PreState: a journal entry records the state *before* the change. Every
@@ -799,4 +966,94 @@ func c04PreState(c *eng.Ctx, r *eng.Report) {
 			}
 		}
 	}
+}
+
+// c04DirtyOrArmedAs: Finalise and Commit only look at objects in
+// accountObjectsDirty, and an object enters that set through its one-shot
+// onDirty hook. So for every cached object: in the set, or hook armed. The
+// rule checks the three ways the invariant can be lost.
+func c04DirtyOrArmedAs(c *eng.Ctx, r *eng.Report, rule string) {
+	r.Min(rule, 5)
+	related := func(a, b ssa.Instruction) bool {
+		return a.Block() == b.Block() || eng.Dominates(a, b) || eng.Dominates(b, a)
+	}
+	nDel, nReset, nClear := 0, 0, 0
+	for _, fn := range c.PkgFuncs(acctPkg) {
+		if c.IsTestFunc(fn) {
+			continue
+		}
+		var rearm, drop, objReset []ssa.Instruction
+		var dels, resets, clears []ssa.Instruction
+		for _, b := range fn.Blocks {
+			for _, in := range b.Instrs {
+				switch x := in.(type) {
+				case *ssa.Store:
+					t, f := eng.FieldOf(x.Addr)
+					switch shortStruct(t) + "." + f {
+					case "accountObject.onDirty":
+						if eng.IsNilConst(x.Val) {
+							clears = append(clears, in)
+						} else {
+							rearm = append(rearm, in)
+						}
+					case "AccountDB.accountObjectsDirty":
+						resets = append(resets, in)
+					case "AccountDB.accountObjects":
+						objReset = append(objReset, in)
+					}
+				case *ssa.Call:
+					nm := eng.CallName(&x.Call)
+					if nm == "builtin:delete" && strings.HasSuffix(eng.Desc(x.Call.Args[0]), ".accountObjectsDirty") {
+						dels = append(dels, in)
+					}
+					if nm == "(*sync.Map).Delete" && strings.HasSuffix(eng.Desc(x.Call.Args[0]), ".accountObjects") {
+						drop = append(drop, in)
+					}
+				}
+			}
+		}
+		name := strings.ReplaceAll(eng.FuncName(fn), "storage/account.", "")
+		for i, d := range dels {
+			nDel++
+			ok := false
+			for _, o := range append(append([]ssa.Instruction{}, rearm...), drop...) {
+				if related(d, o) {
+					ok = true
+				}
+			}
+			r.Check(ok, rule, fmt.Sprintf("dirty-or-armed:%s#%d", name, i), c.Pos(d.Pos()), "the object leaving the dirty set gets its onDirty hook back or leaves the cache too", eng.FuncName(fn)+" takes an address out of accountObjectsDirty without re-arming that object's onDirty hook and without dropping the object from the cache: the hook is one-shot (already nil once the object was marked), so every later write to the object goes unmarked, Finalise/Commit skip it, and the root computed afterwards lacks writes that every read still sees (e.g. Snapshot; zero-amount credit to a cold account; RevertToSnapshot; credit; Commit)")
+		}
+		for i, d := range resets {
+			nReset++
+			ok := false
+			for _, o := range objReset {
+				if related(d, o) {
+					ok = true
+				}
+			}
+			r.Check(ok, rule, fmt.Sprintf("dirty-reset:%s#%d", name, i), c.Pos(d.Pos()), "the dirty set is replaced together with the object cache", eng.FuncName(fn)+" replaces accountObjectsDirty but keeps the cached account objects: their consumed onDirty hooks stay nil and later writes to them are never marked dirty")
+		}
+		for i, d := range clears {
+			nClear++
+			// cleared only right after the hook was called
+			ok := false
+			for _, s := range eng.Sites(fn) {
+				if s.Common().StaticCallee() == nil && !s.Common().IsInvoke() {
+					if _, f := eng.FieldOf(unload(s.Common().Value)); f == "onDirty" && eng.Dominates(s.Instr, d) {
+						ok = true
+					}
+				}
+			}
+			r.Check(ok, rule, fmt.Sprintf("hook-consumed:%s#%d", name, i), c.Pos(d.Pos()), "onDirty is cleared only after it was called", eng.FuncName(fn)+" clears the object's onDirty hook without having called it: the object is neither dirty nor armed, its writes never reach the trie")
+		}
+	}
+	r.Check(nDel >= 3 && nReset >= 2 && nClear >= 4, rule, "dirty-or-armed:sites", "", fmt.Sprintf("%d removals, %d resets, %d hook clears", nDel, nReset, nClear), fmt.Sprintf("only %d removals from the dirty set, %d resets and %d hook clears found (3/2/4 expected)", nDel, nReset, nClear))
+}
+
+// unload strips the load of a field address (`*(&x.f)` → `&x.f`).
+func unload(v ssa.Value) ssa.Value {
+	if u, ok := v.(*ssa.UnOp); ok && u.Op == token.MUL {
+		return u.X
+	}
+	return v
 }
